@@ -86,21 +86,9 @@ int _ZN4bloc10Executable3runERNS_7ContextERKNSt7__cxx114listIPKNS_9StatementESaI
 #define CATCHES_OK (g_catches_len >= 0 && g_catches_len <= CATCH_MAX && ID(0) != STRID_EMPTY && ID(1) != STRID_EMPTY && ID(2) != STRID_EMPTY)
 #define THROWABLE_STUBS_INPUT INPUT_STATE(g_catches_len, ID(0), ID(1), ID(2), g_what_id, g_exec_depth, g_run_throws[0], g_run_throws[1], g_run_thrown_no[0], g_run_thrown_no[1])
 
-/* EXC_RT RuntimeError::findThrowable(const std::string&): proved in job rt_findThrowable */
-unsigned _ZN4bloc12RuntimeError13findThrowableERKNSt7__cxx1112basic_stringIcSt11char_traitsIcESaIcEEE(const struct std_string *keyword)
-__CPROVER_requires(__exc == 0)
-__CPROVER_assigns()
-__CPROVER_ensures(__exc == 0)
-__CPROVER_ensures(RET == (STR_ID(keyword) == STRID_OUT_OF_RANGE ? EXC_RT_OUT_OF_RANGE : STR_ID(keyword) == STRID_DIVIDE_BY_ZERO ? EXC_RT_DIVIDE_BY_ZERO : STR_ID(keyword) == STRID_EMPTY ? EXC_RT_NOERROR : EXC_RT_USER_S))
-;
-/* unsigned RuntimeError::throwable(EXC_RT): proved in job rt_throwable */
-unsigned _ZN4bloc12RuntimeError9throwableENS_6EXC_RTE(unsigned no)
-__CPROVER_requires(__exc == 0)
-__CPROVER_assigns()
-__CPROVER_ensures(__exc == 0)
-__CPROVER_ensures(RET == ((no) == EXC_RT_OUT_OF_RANGE ? 1 : (no) == EXC_RT_DIVIDE_BY_ZERO ? 2 : 0))
-;
+#include "rt_api.h"
 
+#ifdef JOB_DOCATCH   /* the doit job checks doit with docatch as rendered, whatever its signature */
 /* void BEGINStatement::docatch(const RuntimeError& rt, Context& ctx) const -- called with the block still open */
 void _ZNK4bloc14BEGINStatement7docatchERKNS_12RuntimeErrorERNS_7ContextE(struct BEGINStatement *this, struct RuntimeError *rt, struct Context *ctx)
 __CPROVER_requires(IS_FRESH(this, sizeof(*this)) && IS_FRESH(ctx, sizeof(*ctx)) && IS_FRESH(rt, sizeof(*rt)))
@@ -125,6 +113,9 @@ PROP(C07) __CPROVER_ensures(!CATCHABLE(rt->no) ==> NOMATCH(rt->no))
 PROP(C07) __CPROVER_ensures(g_exec_pushes == 0)
 ;
 
+#endif
+
+#ifdef JOB_DOIT
 /* const Statement * BEGINStatement::doit(Context& ctx) const */
 const struct Statement *_ZNK4bloc14BEGINStatement4doitERNS_7ContextE(struct BEGINStatement *this, struct Context *ctx)
 __CPROVER_requires(IS_FRESH(this, sizeof(*this)) && IS_FRESH(ctx, sizeof(*ctx)) && IS_FRESH(this->_exec, sizeof(struct Executable)))
@@ -153,5 +144,6 @@ PROP(C07) __CPROVER_ensures((g_run_throws[0] && !NOMATCH(g_run_thrown_no[0]) && 
 PROP(C07) __CPROVER_ensures((g_run_throws[0] && NOMATCH(g_run_thrown_no[0])) ==> (g_run_count == 1 && !OK && THROWN_NO == g_run_thrown_no[0]))
 PROP(C07) __CPROVER_ensures((g_run_throws[0] && !CATCHABLE(g_run_thrown_no[0])) ==> (g_run_count == 1 && !OK))
 ;
+#endif
 
 #include FNS_C
